@@ -21,6 +21,56 @@ _conf_parsed = False
 _app_client = None
 
 
+_GLOBALS = []      # (container object, pristine deep copy)
+
+
+def _snapshot_globals():
+    """Remember the import-time value of every module-level and class-level mutable container of
+    the yabgp package.  A (re)boot of the simulated agent process restores them: a new process
+    starts from freshly imported modules, and runs must not leak state into each other."""
+    import copy
+    import sys
+    import types
+    seen = set()
+
+    def consider(obj):
+        if type(obj) in (dict, list, set) and id(obj) not in seen:
+            seen.add(id(obj))
+            try:
+                _GLOBALS.append((obj, copy.deepcopy(obj)))
+            except Exception:
+                pass
+    for name in sorted(sys.modules):
+        if not (name == "yabgp" or name.startswith("yabgp.")) or ".tests" in name:
+            continue
+        mod = sys.modules[name]
+        if mod is None:
+            continue
+        for k, v in sorted(vars(mod).items()):
+            if k.startswith("__"):
+                continue
+            consider(v)
+            if isinstance(v, type) and getattr(v, "__module__", "").startswith("yabgp"):
+                for ck, cv in sorted(vars(v).items(), key=lambda kv: kv[0]):
+                    if not ck.startswith("__"):
+                        consider(cv)
+
+
+def _restore_globals():
+    for obj, pristine in _GLOBALS:
+        if obj != pristine:
+            import copy
+            fresh = copy.deepcopy(pristine)
+            if isinstance(obj, dict):
+                obj.clear()
+                obj.update(fresh)
+            elif isinstance(obj, list):
+                obj[:] = fresh
+            else:
+                obj.clear()
+                obj.update(fresh)
+
+
 def _load_yabgp():
     global _yabgp_loaded
     if not _yabgp_loaded:
@@ -29,6 +79,7 @@ def _load_yabgp():
         import netaddr
         netaddr.IPAddress("10.0.0.1").info      # lazy import of the IANA tables (one-off, heavy)
         netaddr.IPAddress("::1").info
+        _snapshot_globals()
         _yabgp_loaded = True
 
 
@@ -247,6 +298,7 @@ class World(object):
         so("write_msg_max_size", 500, group="message")
         so("last_time", 0, group="keep_alive")
         self.note("boot", self.boots)
+        _restore_globals()
         import yabgp.handler.default_handler as dh
         import builtins
         import os as real_os
